@@ -23,12 +23,18 @@ def check(run, only=None):
         uhs = [h for h in uhs if only in h.name]
     ov = Overlay(run, "c08")
     ov.preamble(parsecells.HELPERS, pre + upre)
+    unipre, unihs = parsecells.gen_unicode(run.tier, True)
+    if only:
+        unihs = [h for h in unihs if only in h.name]
+    ov.preamble(parsecells.UNESCAPE_RS, unipre)
+    for h in unihs:
+        ov.add(parsecells.UNESCAPE_RS, h)
     for h in hs:
         ov.add(parsecells.HELPERS, h)
     for h in uhs:
         ov.add(parsecells.UNESCAPE, h)
     ov.write()
-    allh = hs + uhs
+    allh = hs + uhs + unihs
     light = [h for h in allh if not h.heavy]
     heavy = [h for h in allh if h.heavy]
     res = run_kani(run, light, timeout_s=240 if run.tier == "quick" else 900, tag="light")
@@ -70,7 +76,8 @@ def replay(run, path):
     syn = synx.Syntax(run)
     pre, hs = parsecells.gen_denote(syn, "thorough")
     upre, uhs = parsecells.gen_unescape(syn, "thorough", mode="c08")
+    unipre, unihs = parsecells.gen_unicode("thorough", True)
     name = rp["harness"]
-    if any(h.name == name for h in uhs):
-        return replay_file(run, path, gen_all=lambda: uhs, file=parsecells.HELPERS, tag="c08", preamble=pre + upre)
-    return replay_file(run, path, gen_all=lambda: hs, file=parsecells.HELPERS, tag="c08", preamble=pre + upre)
+    if any(h.name == name for h in unihs):
+        return replay_file(run, path, gen_all=lambda: unihs, file=parsecells.UNESCAPE_RS, tag="c08", preamble=unipre)
+    return replay_file(run, path, gen_all=lambda: hs + uhs, file=parsecells.HELPERS, tag="c08", preamble=pre + upre)
